@@ -94,6 +94,12 @@ def run():
             ev = {}
         ck.violation('alloc:%s:flags=%s:failAt=%s' % (ev.get('e', '?'), ev.get('flags', ev.get('during', '?')), ev.get('failAt', '?')),
                      'call rejected by the allocation model: %s' % rj['line'][:500], {'trace_tail': upto[-5:], 'tlc': rj['tlc']})
+    res2 = vlib.validate_sharded('TraceAlloc', 'TraceAllocModel.cfg', lines, 'c15m', shards=16, timeout=1500, group=group, independent=False)
+    ck.cov['parts']['TraceAllocModel'] = {'trace_events_accepted': res2['accepted'], 'trace_events_total': res2['total'], 'model_drift': [x['line'][:200] for x in res2['rejected']][:5]}
+    ck.cov['states'] += res2['states']
+    ck.cov['transitions'] += res2['transitions']
+    if res2['rejected'] and not res['rejected']:
+        vlib.log('[c15] MODEL-DRIFT: request sequence differs from RxAlloc!Steps: %s' % res2['rejected'][0]['line'][:300])
     fired = sum(1 for l in lines if '"faultFired": true' in l)
     ck.cov['calls_returning_null'] = sum(1 for l in lines if '"ok": false' in l)
     ck.cov['evaluations'] = len(scens)
